@@ -32,6 +32,7 @@ def jobs_for(tier: str) -> list[dict]:
         configs = [dict(delimited=True, frame_size=250, logical=flat_lt, preset=(8, 8, 8)), dict(delimited=True, frame_size=1, logical=flat_lt, preset=(8, 8, 8)), dict(delimited=False, frame_size=250, logical=flat_lt, preset=(8, 0, 0))]
         configs.append(dict(delimited=True, frame_size=250, logical=None, preset=(8, 8, 8)))
         configs.append(dict(delimited=True, frame_size=250, logical=3 if physical == 1 else 4, preset=(8, 8, 8)))
+        configs.append(dict(delimited=True, frame_size=250, logical=13 if physical == 1 else 14, preset=(8, 8, 8)))
         if tier == "thorough":
             configs.append(dict(delimited=True, frame_size=250, logical=None, preset=(8, 3 if physical == 1 else 4, 1)))
         for name, stmts in seqs:
@@ -45,6 +46,13 @@ def jobs_for(tier: str) -> list[dict]:
                     if via in ("sink", "store"):
                         use = list(dict.fromkeys(stmts))  # a store is a set: corresponding data has no duplicates
                     jobs.append(dict(integ=integ, physical=physical, name=name, stmts=use, via=via, parsers=SIX if via == "generator" or physical == 1 else [], generalized=False, rdf_star=False, **cfg))
+    # option-driven flat entry points: the stream class is guessed by each integration from the same options
+    for physical in (1, 2):
+        arity = 3 if physical == 1 else 4
+        for name, stmts in C.repeat_masks(arity)[:3] + [s_ for s_ in C.sharing_sequences(arity) if s_[0] in ("five-statements", "shared-prefixes-and-names")]:
+            for logical in (None, 1 if physical == 1 else 2, 3, 13, 4, 14, 114):
+                for integ in ("generic", "rdflib"):
+                    jobs.append(dict(integ=integ, physical=physical, name=name + " [flat entry point]", stmts=stmts, via="flat", parsers=[], generalized=False, rdf_star=False, delimited=True, frame_size=250, logical=logical, preset=(8, 8, 8)))
     # namespace declarations through one reused stream (grouped entry points) and through containers, TRIPLES only
     from ..values import Atom, sstr
 
@@ -71,7 +79,7 @@ def check(chk: Check) -> None:
             continue
         chk.functions.update(res["funcs"])
         jb = res["job"]
-        key = (jb["physical"], jb["name"], jb["delimited"], jb["frame_size"], jb.get("logical"), tuple(jb["preset"]), "gen" if jb["via"] == "generator" else ("grouped" if jb["via"] == "grouped2" else "container"))
+        key = (jb["physical"], jb["name"], jb["delimited"], jb["frame_size"], jb.get("logical"), tuple(jb["preset"]), "gen" if jb["via"] == "generator" else ("grouped" if jb["via"] == "grouped2" else ("flat" if jb["via"] == "flat" else "container")))
         by_key.setdefault(key, {})[jb["integ"]] = res
         # (a) parsers agree
         for pi, rec in enumerate(res["paths"]):
